@@ -128,22 +128,22 @@ def main():
         types.append(["list", t])
         types.append(["pair", "bool", t])
     for t in types:
-        for _ in range(2 if quick else 6):
+        for _ in range(4 if quick else 6):
             add(["con", t, G.gen_value(rng, t, 2, encodings=True)], tag="type")
     # (3) strings over all of Unicode
     for s in G.STRINGS:
         add(["con", "string", s], tag="string")
-    for _ in range(200 if quick else 5000):
+    for _ in range(1000 if quick else 5000):
         add(["con", "string", G.gen_string(rng)], tag="string")
     for cp in list(range(0, 0x100)) + [0x100, 0x7FF, 0x800, 0xD7FF, 0xE000, 0xFFFD, 0xFFFF, 0x10000, 0x10FFFF]:
         add(["con", "string", "a" + chr(cp) + "b"], tag="string")
     # (4) data with every constructor-tag range, nested
     for tag in G.CONSTR_TAGS:
         add(["con", "data", {"c": str(tag), "f": [{"i": "1"}, {"b": "ff"}]}], tag="data")
-    for _ in range(200 if quick else 5000):
+    for _ in range(1000 if quick else 5000):
         add(["con", "data", G.gen_data(rng, 3, encodings=True)], tag="data")
     # (5) random programs over all constructors, versions 1.0.0 and 1.1.0
-    n_random = 3000 if quick else 60000
+    n_random = 12000 if quick else 60000
     for i in range(n_random):
         v = (1, 1, 0) if i % 3 else (1, 0, 0)
         add(G.gen_term(rng, 2 + rng.below(40), names, 0, allow_constr=(v == (1, 1, 0)), bls=True, encodings=True), v, tag="random")
